@@ -665,6 +665,14 @@ func gateDominates(c *Check, w *World, rule string, f *ssa.Function, call ssa.Ca
 					}
 				}
 			case *ssa.Phi:
+				if y.Block() == eb {
+					// the failing edge joins the common exit (single-exit style): only what it brings counts
+					for k, p := range eb.Preds {
+						if p == gate.Block() {
+							return nonNil(y.Edges[k], depth+1)
+						}
+					}
+				}
 				for _, e := range y.Edges {
 					if !nonNil(e, depth+1) {
 						return false
@@ -719,6 +727,9 @@ func init() {
 			// replaces it before (or after) validating it
 			ruleConstructorIdentity(c, w, tb, "R14.6")
 			c.Floor("R14.6", 1)
+			// inputs given in hex (the REST path): each field is the bytes of its own text, an omitted one stays nil
+			ruleHexInput(c, w, tb, "R14.7")
+			c.Floor("R14.7", 7)
 			c.Floor("R14.1", 1)
 			c.Floor("R14.2", 4)
 			c.Floor("R14.3", 8)
